@@ -25,19 +25,7 @@ instance (ops : List Op) : Decidable (Differs ops) := by unfold Differs; infer_i
 
 theorem refutes {ops : List Op} (h : Differs ops) : ¬ C18_full := fun hf => h (hf H0 0 ops)
 
-/-- fs:list-delimiter-not-rolled-up -/
-theorem C18_counterexample_list_delimiter :
-    Differs [.createBucket bka, .putObject bka kDE [1] none {} none, .putObject bka kDF [2] none {} none,
-      .listObjectsV2 bka none (some [47]) none none] := by decide
 
-/-- fs:list-ignores-max-keys -/
-theorem C18_counterexample_list_max_keys :
-    Differs [.createBucket bka, .putObject bka kA [1] none {} none, .putObject bka kB [2] none {} none,
-      .listObjectsV2 bka none none none (some 1)] := by decide
-/-- fs:stale-metadata-after-copy -/
-theorem C18_counterexample_stale_metadata_after_copy :
-    Differs [.createBucket bka, .putObject bka kA [1] mdV {} none, .putObject bka kB [2] none {} none,
-      .copyObject bka kB bka kA, .getObject bka kA none] := by decide
 
 /-- fs:list-prefix-as-path (what is left of it since fe72881): leading slashes of the prefix are dropped -/
 theorem C18_counterexample_list_prefix_leading_slash :
